@@ -4,15 +4,23 @@ from check import Prop
 class C25(Prop):
     pid = "C25"
     check_mod = "C25"
-    drivers = [dict(pkg="internal/ntpestimator", test="TestVerifC25")]
+    drivers = [dict(pkg="internal/ntpestimator", test="TestVerifC25"),
+               dict(pkg="internal/stream", test="TestVerifC25Stream", extra_pkgs=["internal/ntpestimator"], timeout=600)]
     n_quick = 500
     n_thorough = 30000
     shard = 250
     ready = True
     rule = ("histories of 2-26 Estimate calls on the real Estimator with timeNow set by the driver: steady clocks, forward/"
             "backward wall-clock jumps, PTS jumps/regressions/repeats, jitter, PTS near the int64 edge; clock rates 1..2^32-1. "
-            "Non-trivial = at least one call that did not resynchronise; distinct = distinct histories")
+            "Non-trivial = at least one call that did not resynchronise; distinct = distinct histories. Caller side: 8+ real "
+            "Streams per run (ReplaceNTP; four in five always-available: offline filler -> publisher(s) -> filler, raw "
+            "timestamps restarting near zero, occasional jumps; one in five ordinary) observed by a real Reader: (delivered "
+            "PTS, clock reading of the stream's own estimator, NTP carried by the unit) per delivered unit, judged by the same "
+            "model and the same observational clauses from the estimator state read when the observation starts")
     trusted_base = ["Coq 8.16.1 kernel + VM", "in-package driver zz_verif_c25_test.go (sets the package's timeNow variable)",
+                    "stream driver zz_verif_c25s_test.go (package stream) + overlay hook zz_verif_c25_hook.go (package ntpestimator: "
+                    "clock observer and read access to the reference point); one clock reading per delivered unit is assumed and "
+                    "checked (scenarios where the counts differ are not judged, at most half of them)",
                     "model Model/C25_Ntp.v hand-written; instants are Unix nanoseconds in Z (time.Time.Add is exact for "
                     "realistic dates)", "the scaling helper is C24's muldiv_w (tied to the source by C24's translator)"]
     assumptions = ["ClockRate >= 1 (0 would divide by zero)", "wall clock within the range where UnixNano is defined"]
